@@ -383,6 +383,47 @@ class DocBuilder:
         self._book(c, h, kind)
         return h, err
 
+    def kind_twin(self, c):
+        """a record stated once more with the same type, identifier and attributes, except that values are of another kind that
+        Python's == cannot tell apart (1 / True / 1.0, 0 / False, one instant under two UTC offsets): another statement, not a
+        repetition. Returns the new handle or None"""
+        import datetime as _dt
+        g, w = self.g, self.w
+
+        def other_kind(v):
+            if isinstance(v, bool):
+                return g.choice([int(v), float(v)])
+            if isinstance(v, int) and v in (0, 1):
+                return g.choice([bool(v), float(v)])
+            if isinstance(v, float) and v in (0.0, 1.0):
+                return g.choice([bool(v), int(v)])
+            if isinstance(v, _dt.datetime) and v.tzinfo is not None and 2 <= v.year <= 9998:
+                mins = g.choice([m for m in (0, 60, -300, 330) if _dt.timedelta(minutes=m) != v.utcoffset()])
+                return v.astimezone(_dt.timezone(_dt.timedelta(minutes=mins)))
+            return None
+        cands = []
+        for h in self.recs.get(c, []):
+            r_ = w.recs[h]
+            if r_.identifier is None or r_.get_type().localpart == "Membership":
+                continue
+            if any(other_kind(v) is not None for (_a, v) in r_.extra_attributes):
+                cands.append(h)
+        if not cands:
+            return None
+        r_ = w.recs[g.choice(cands)]
+        attrs = [(a, v) for (a, v) in r_.formal_attributes if v is not None]
+        swapped = False
+        for (a, v) in r_.extra_attributes:
+            v2 = other_kind(v)
+            if v2 is not None and (not swapped or g.chance(0.5)):
+                attrs.append((a, v2))
+                swapped = True
+            else:
+                attrs.append((a, v))
+        h2, _e = w.new_record(c, r_.get_type().localpart, r_.identifier, attrs)
+        self._book(c, h2, r_.get_type().localpart)
+        return h2
+
     def _book(self, c, h, kind):
         if h is None:
             return
